@@ -590,8 +590,13 @@ func famTyped(dir string, seed int64, tier string) {
 			key := "roundtrip-not-equivalent"
 			if known {
 				key = "ptr-to-nil-ptr"
+			} else if tied {
+				// two distinct map keys with EQUAL key streams (a nil interface and a typed nil pointer held in an
+				// interface-typed key both marshal to Nil) are one key after decoding: the recorded finding
+				key = "tied-map-keys"
 			}
-			repU.violate("C01", key, fmt.Sprintf("round trip of %v gives %s", t, truncate(fmt.Sprintf("%+v", safeFormat(back)), 300)), desc)
+			tsBack, _ := marshalTokens(back.Interface(), nil)
+			repU.violate("C01", key, fmt.Sprintf("round trip of %v gives %s; stream of the value [%s], stream of the result [%s]", t, truncate(fmt.Sprintf("%+v", safeFormat(back)), 300), truncate(descTokens(ts), 700), truncate(descTokens(tsBack), 700)), desc)
 		}
 		if len(ts) < 400 {
 			wU.add(fmt.Sprintf("UnmarshalCase %s %s %s %s %s %s %s", coqOpts(false, false, false), reg, tyS, "(zero "+tyS+")", coqTokens(ts), floatTable(ts), uobs(back, eU)), "roundtrip: "+desc, len(ts) >= 2)
@@ -613,7 +618,7 @@ func famTyped(dir string, seed int64, tier string) {
 		if compKey && classOf(eU2) == "EBadMapKey" {
 			continue // the recorded finding, already reported through the token route
 		}
-		if eU2 != nil || (!equivValues(v, back2) && !known) {
+		if eU2 != nil || (!equivValues(v, back2) && !known && !tied) {
 			repU.violate("C01", "roundtrip-bytes", fmt.Sprintf("round trip through bytes (%s, %s) fails: %v", writerFlavours[wf], readerFlavours[rf], eU2), desc)
 		}
 	}
